@@ -15,6 +15,9 @@ type ExtFn func(m *Machine, fr *Frame, args []Value) Value
 
 var externals = map[string]ExtFn{}
 
+// optionalExternals: externals that are only used when the predicate holds (else the SSA body runs)
+var optionalExternals = map[string]func(m *Machine) bool{}
+
 // stubbed packages: every function returns the zero value of its result type.
 var zeroStubPkgs = []string{
 	"github.com/rs/zerolog",
